@@ -23,6 +23,10 @@ func (w *World) RenderD(v ssa.Value, depth int) string {
 func paramIndex(p *ssa.Parameter) int {
 	for i, q := range p.Parent().Params {
 		if q == p {
+			// a pseudo receiver that follows the context is numbered like a receiver ($0), the context $1
+			if r, ok := PseudoRecv(p.Parent()); ok && r == 1 && i <= 1 {
+				return 1 - i
+			}
 			return i
 		}
 	}
@@ -178,11 +182,22 @@ func (w *World) render(v ssa.Value, depth int, seen map[ssa.Value]bool) string {
 		}
 		seen[x] = true
 		var parts []string
+		cls := map[string]int{}
 		for _, e := range x.Edges {
-			parts = append(parts, w.render(e, depth-2, seen))
+			p := w.render(e, depth-2, seen)
+			parts = append(parts, p)
+			// the class of an operand is a property of the value, not of how deep it happens to be printed: an update of
+			// a loop-carried value stays one when its text is elided
+			c := phiClassText(p)
+			if c == 1 && refsInProgress(e, seen, 0, new(int)) {
+				c = 3
+			}
+			if old, ok := cls[p]; !ok || c > old {
+				cls[p] = c
+			}
 		}
 		delete(seen, x)
-		return "phi(" + strings.Join(canonPhi(parts), "|") + ")"
+		return "phi(" + strings.Join(canonPhiClassed(parts, cls), "|") + ")"
 	case *ssa.Alloc:
 		if seen[x] {
 			return "&local↺"
@@ -262,6 +277,13 @@ func CallArgs(c *ssa.CallCommon) []ssa.Value {
 	if c.IsInvoke() {
 		return append([]ssa.Value{c.Value}, c.Args...)
 	}
+	if f := c.StaticCallee(); f != nil {
+		if r, ok := PseudoRecv(f); ok && r == 1 && len(c.Args) >= 2 {
+			out := append([]ssa.Value{}, c.Args...)
+			out[0], out[1] = out[1], out[0]
+			return out
+		}
+	}
 	return c.Args
 }
 
@@ -285,6 +307,10 @@ func (w *World) renderCall(c *ssa.CallCommon, depth int, seen map[ssa.Value]bool
 		}
 	} else {
 		as = []string{"…"}
+	}
+	// one spelling for strict time order: a.Before(b) is b.After(a)
+	if name == "(time.Time).Before" && len(as) == 2 {
+		return "(time.Time).After(" + as[1] + ", " + as[0] + ")"
 	}
 	// one spelling for "some element satisfies the predicate": lo.ContainsBy / lo.SomeBy are the found flag of lo.Find
 	for _, alias := range [...]string{"lo.ContainsBy[", "lo.SomeBy["} {
@@ -336,16 +362,52 @@ func (w *World) RenderInstr(in ssa.Instruction) string {
 // dropped; constants come first, then ordinary values, then the self reference, then updates of the self reference;
 // ties are broken by text.
 func canonPhi(parts []string) []string {
-	class := func(s string) int {
-		switch {
-		case s == "phi↺":
-			return 2
-		case strings.Contains(s, "phi↺"):
-			return 3
-		case s == "nil" || s == "true" || s == "false" || s == "zero" || s == `""` || (len(s) > 0 && (s[0] == '"' || s[0] == '-' || (s[0] >= '0' && s[0] <= '9'))):
-			return 0
+	return canonPhiClassed(parts, nil)
+}
+
+func phiClassText(s string) int {
+	switch {
+	case s == "phi↺":
+		return 2
+	case strings.Contains(s, "phi↺"):
+		return 3
+	case s == "nil" || s == "true" || s == "false" || s == "zero" || s == `""` || (len(s) > 0 && (s[0] == '"' || s[0] == '-' || (s[0] >= '0' && s[0] <= '9'))):
+		return 0
+	}
+	return 1
+}
+
+// refsInProgress: v (transitively through its operands, bounded) refers to a phi that is currently being rendered.
+func refsInProgress(v ssa.Value, seen map[ssa.Value]bool, depth int, budget *int) bool {
+	if v == nil || depth > 10 || *budget > 300 {
+		return false
+	}
+	*budget++
+	if _, isPhi := v.(*ssa.Phi); isPhi && seen[v] {
+		return true
+	}
+	in, ok := v.(ssa.Instruction)
+	if !ok {
+		return false
+	}
+	if _, isPhi := v.(*ssa.Phi); isPhi && depth > 0 {
+		// another (finished or not yet started) phi: its own rendering decides; look through it all the same
+	}
+	var ops []*ssa.Value
+	for _, op := range in.Operands(ops) {
+		if op != nil && *op != nil && refsInProgress(*op, seen, depth+1, budget) {
+			return true
 		}
-		return 1
+	}
+	return false
+}
+
+func canonPhiClassed(parts []string, cls map[string]int) []string {
+	class := func(s string) int {
+		if c, ok := cls[s]; ok {
+			return c
+		}
+		return phiClassText(s)
 	}
 	seen := map[string]bool{}
 	var out []string
@@ -388,13 +450,22 @@ func (w *World) inlinedResult(c *ssa.CallCommon, idx int, depth int, seen map[ss
 		w.inlineDepth--
 		w.subst = w.subst[:len(w.subst)-1]
 	}()
+	nret := 0
+	for _, b := range f.Blocks {
+		if len(b.Instrs) > 0 && (len(b.Preds) > 0 || b.Index == 0) {
+			if _, ok := b.Instrs[len(b.Instrs)-1].(*ssa.Return); ok {
+				nret++
+			}
+		}
+	}
 	for _, b := range f.Blocks {
 		if len(b.Instrs) == 0 || (len(b.Preds) == 0 && b.Index != 0) {
 			continue
 		}
-		// loops make the returned expressions path-dependent in ways a phi of returns does not express
+		// loops make the returned expressions path-dependent in ways a phi of returns does not express — unless the
+		// helper has a single return (the value computed by the loop, exactly as it would read inline)
 		for _, su := range b.Succs {
-			if su.Index <= b.Index && su != b && len(su.Preds) > 1 && su.Comment != "" && strings.Contains(su.Comment, "loop") {
+			if nret > 1 && su.Index <= b.Index && su != b && len(su.Preds) > 1 && su.Comment != "" && strings.Contains(su.Comment, "loop") {
 				return "", false
 			}
 		}
